@@ -217,3 +217,17 @@ func VerifDefaultLanguage(doc *Document) {
 		doc.Language = "Text"
 	}
 }
+
+// VerifThreeRepoSearcher: the compound shard of verifThreeRepos (r1..r3, ids 1..3, branches main+dev)
+// as a zoekt.Searcher; VerifSimpleSearcher: a one-repository shard (id, name, branch names) with
+// files a.go ("func needle<name>...") on the first branch and b.go on all branches.
+func VerifThreeRepoSearcher() zoekt.Searcher {
+	return verifLoad(verifWriteShard(verifThreeRepos(), "verif-compound.zoekt"))
+}
+
+func VerifSimpleSearcher(id uint32, name string, branches ...string) zoekt.Searcher {
+	return verifSimpleShard(verifRepo(id, name, branches...), []verifDoc{
+		{name: "a.go", content: "func needle" + name + "() {}\nline two\n", branches: []string{branches[0]}},
+		{name: "b.go", content: "plain text\n", branches: branches},
+	})
+}
